@@ -92,6 +92,8 @@ type Exec struct {
 	retryOrd  map[*ssa.Function]int
 	iterOrdOf map[ssa.Instruction]int
 	iterCount map[*ssa.Function]int
+	cbOrdOf   map[ssa.Instruction]int
+	cbCount   map[*ssa.Function]int
 	cancelID  int
 }
 
@@ -1281,6 +1283,10 @@ func (x *Exec) knownGlobal(g *ssa.Global) *Term {
 	switch g.Pkg.Pkg.Path() + "." + g.Name() {
 	case "github.com/google/uuid.Nil":
 		return zeroTerm(g.Type().Underlying().(*types.Pointer).Elem())
+	case repoModule + "/workflow/storage/sqlite.zeroTime":
+		// var zeroTime = time.Unix(0, 0), never reassigned
+		x.assumed["storage: the package variable zeroTime is time.Unix(0, 0) (initialised once, never reassigned)"] = true
+		return unixEpoch()
 	}
 	return nil
 }
@@ -1494,7 +1500,7 @@ func (x *Exec) doTypeAssert(fr *Frame, st *State, ins *ssa.TypeAssert) Value {
 // evalInv evaluates a loop invariant clause in state st.
 func (x *Exec) evalInv(fr *Frame, st, snap *State, loop *LoopInfo, inv Clause) *Term {
 	con := x.contractForFrame(fr)
-	env := &SpecEnv{x: x, vars: map[string]SVal{}, st: st, old: fr.entry, pkg: fr.fn.Pkg.Pkg, lets: map[string]*Expr{}, fr: fr, loop: loop}
+	env := &SpecEnv{x: x, vars: map[string]SVal{}, st: st, old: fr.entry, pkg: fnTypesPkg(fr.fn), lets: map[string]*Expr{}, fr: fr, loop: loop}
 	if con != nil {
 		env.free = x.freeOf[con]
 		for i, p := range con.Params {
